@@ -318,7 +318,15 @@ impl Kernel {
                     }
                 }
             } else if path.ends_with(b"/fd") {
-                if !self.dead {
+                // the descriptor table is listed through a task: one that has exited (zombie) shows none
+                let owner_zombie = path
+                    .split(|c| *c == b'/')
+                    .filter_map(|c| std::str::from_utf8(c).ok().and_then(|s| s.parse::<i32>().ok()))
+                    .last()
+                    .and_then(|tid| self.thread_idx(tid))
+                    .map(|i| self.threads[i].life != Life::Alive)
+                    .unwrap_or(false);
+                if !self.dead && !owner_zombie {
                     for f in &self.world.fds {
                         if !self.closed_fds.contains(&f.fd) {
                             entries.push(dec(f.fd as i64));
@@ -797,13 +805,7 @@ impl Kernel {
     }
 
     pub fn end_group_stop_pub(&mut self) {
-        self.group_stop = false;
-        self.shared_pending.retain(|p| p.signo != SIGSTOP);
-        for t in &mut self.threads {
-            t.group_stopped = false;
-            t.join_stop_at = None;
-            t.pending.retain(|p| p.signo != SIGSTOP);
-        }
+        self.end_group_stop();
     }
 
     /// harness pseudo-call: lets events attach to "between dumps" and advances the target
